@@ -9,8 +9,8 @@
    * fmt_g neg digits dp : the bytes of starlark's Float.String() for a finite
      float whose shortest decimal representation is 0.d1d2...dn * 10^dp
      (strconv.FormatFloat(f,'g',-1,64): %e form when the decimal exponent
-     dp-1 is < -4 or >= 21 ... see below: strconv itself uses threshold 6 with the
-     "shortest" flag; then starlark appends ".0" when neither '.' nor 'e' occurs).
+     dp-1 is < -4 or >= 6 (strconv's threshold under the "shortest" flag), else
+     %f form; then starlark appends ".0" when neither '.' nor 'e' occurs).
    The shortest-digit generation itself (Ryu/Grisu in strconv) is NOT defined
    here: it is a named oracle wherever a theorem needs it. *)
 From Coq Require Import NArith ZArith List Bool Lia.
@@ -93,7 +93,7 @@ Definition fmt_f (digits : list N) (dp : Z) : list N :=
 Definition fmt_g_strconv (neg : bool) (digits : list N) (dp : Z) : list N :=
   let ex := dp - 1 in
   (if neg then [45%N] else []) ++
-  (if (ex <? -4) || (ex >=? 21) then fmt_e digits dp else fmt_f digits dp).
+  (if (ex <? -4) || (ex >=? 6) then fmt_e digits dp else fmt_f digits dp).
 
 Definition has_byte (b : N) (s : list N) : bool := existsb (N.eqb b) s.
 
